@@ -160,6 +160,11 @@ def run(run: C.Run):
     R.check_reduce_cases(run, wc, "C01", nontrivial, full=True, model=False)
     # wide label spaces: compared with the NumPy oracle only (400-700 slots per case are not sent to Coq)
     R.check_reduce_cases(run, wide_code_cases(rng, 1500 if thorough else 300), "C01", nontrivial, full=True, model=False)
+    # narrow integer data whose group totals / member counts leave the input width (C20's stream, in memory, every engine): the per-group
+    # NumPy reduction accumulates in the platform integer / float64
+    from tools.props.c20 import int_cases as _ints
+    ic = [c for c in _ints(rng, 3000 if thorough else 500) if "chunks" not in c]
+    R.check_reduce_cases(run, ic, "C01", nontrivial, full=False, model=False)
     F.probe_kf05(run)
     if any(not o[1] for o in run.obligations) and not run.violations:
         run.violation({"property": "C01", "kind": "proof obligation / correspondence no longer checks",
